@@ -5,6 +5,7 @@ seeded scheduler (run-to-block with few preemptions biased to in-flight writes, 
 uniform, start delays); then one follow-up process must reuse the cache without
 compiling."""
 import json
+import os
 
 from .. import common, pscheck
 from .. import procsim as ps
@@ -45,6 +46,9 @@ def gen(seed, index):
             crashes.append({"vp": v, "step": r.choice([r.randint(0, 60), r.randint(0, 320), r.randint(100, 320)]),
                             "kind": kind, "permille": r.choice([0, 1, 250, 500, 900, 999])})
     scn["crashes"] = crashes
+    # forked workers: one process builds an unrelated kernel first (so that libocca's per-process state exists), then
+    # fork()s the n workers, which inherit that state and build the jobs concurrently
+    scn["prefork"] = (not crashes) and r.random() < 0.2
     return scn
 
 
@@ -75,8 +79,16 @@ def execute(scn, sb):
         g = ps.run_group(sb, seed, [ps.VProcSpec({"mode": scn["mode"], "jobs": [jobs[0].spec()]})], strategy=("rtb", 0, 1))
         steps += g.gsteps
     base = 1700000000 * 10 ** 9
-    vps = [ps.VProcSpec(_spec(scn, jobs), delay=scn["delays"][i],
-                        clock_base_ns=base + scn["clock_skew_s"][i] * 10 ** 9) for i in range(scn["n"])]
+    prefork = bool(scn.get("prefork"))
+    if prefork:
+        spec = _spec(scn, jobs)
+        spec["prefork"] = scn["n"]
+        spec["warm"] = [sc.SimpleJob("string", 13, 2).spec()]
+        spec["fork_marker"] = os.path.join(sb.R, ".sim-fork-workers-")
+        vps = [ps.VProcSpec(spec)]
+    else:
+        vps = [ps.VProcSpec(_spec(scn, jobs), delay=scn["delays"][i],
+                            clock_base_ns=base + scn["clock_skew_s"][i] * 10 ** 9) for i in range(scn["n"])]
     sw = scn.get("switches")
     if sw is not None:
         sw = {int(k): v for k, v in sw.items()}
@@ -86,6 +98,15 @@ def execute(scn, sb):
                      faults=[(c["vp"], c["step"], c["kind"], c.get("permille", 500)) for c in crashes if c["vp"] < scn["n"]])
     steps += g.gsteps
     violations = []
+    if prefork:
+        # vproc 0 is the parent (it leaves after forking); workers are vprocs 1..n, their lines carry "child"
+        workers = g.vp[1:]
+        if len(workers) != scn["n"]:
+            raise ps.EngineError("prefork: %d workers expected, the simulator saw %d" % (scn["n"], len(workers)))
+        lines = g.outputs[0]
+        g.outputs = [[o for o in lines if o.get("child") == c] for c in range(scn["n"])]
+        # (which worker index a forked vproc carries is decided by fork order: worker c is vproc 1 + c)
+        g.vp = workers
     killed = [i for i in range(scn["n"]) if g.vp[i].get("killed")]
     for i in range(scn["n"]):
         if i in killed:
@@ -114,6 +135,7 @@ def execute(scn, sb):
         "faults": {"process killed while others build": len(killed)} if killed else {},
         "probes": {"runs_with_inflight_conflict": 1 if racy else 0,
                    "runs_with_a_killed_process": 1 if killed else 0,
+                   "runs_with_forked_workers": 1 if prefork else 0,
                    "contended_ops": ncontended,
                    "processes_total": scn["n"],
                    "compiles_in_group": sum(v["compiles"] for v in g.vp)},
@@ -135,7 +157,8 @@ def signature(scn, out):
     v = out["violations"][0]
     msg = sc.normalise_msg(v[1].split(": ", 1)[-1]) if v[0].endswith("exception") else ""
     return "%s|%s|%s|racy=%s%s" % (PROP, v[0], msg, ",".join(out.get("racy", [])),
-                                   "|killed" if out.get("probes", {}).get("runs_with_a_killed_process") else "")
+                                   ("|killed" if out.get("probes", {}).get("runs_with_a_killed_process") else "") +
+                                   ("|forked-workers" if scn.get("prefork") else ""))
 
 
 def minimise(ex, scn, out, cls):
